@@ -104,6 +104,17 @@ def relayout(rng, text, ws, has_comments, has_eol):
     return out
 
 
+def ws_only_iteration_possible(g) -> bool:
+    """some closure body can succeed having consumed nothing but whitespace: it is nullable as far as characters go, yet holds an
+    element that skips whitespace (constant, rule call, void, end-of-text) - the closure's progress test then sees a moved position"""
+    for _, _, e in g['rules']:
+        for x in E.walk(e):
+            if E.kind(x) == 'rep' and not G.surely_consumes(x[4]):
+                if any(E.kind(y) in ('const', 'call', 'void', 'eof') for y in E.walk(x[4])):
+                    return True
+    return False
+
+
 def shard(col, shard_i, ngrammars, ninputs):
     mr = ModelRun('Engine')
     rng = col.rng
@@ -161,7 +172,10 @@ def shard(col, shard_i, ngrammars, ninputs):
             if b[2] is not None and b[1][0] in ('ok', 'fail') and io[0] in ('ok', 'fail'):
                 col.count('relayout.compared')
                 if b[1] != io:
-                    col.violation(f'oracle:relayout-changes-result:{b[1][0]}->{io[0]}',
+                    cause = ''
+                    if b[1][0] == 'ok' and io[0] == 'ok' and ws_only_iteration_possible(c.g):
+                        cause = ':closure-iteration-consumes-only-whitespace'
+                    col.violation(f'oracle:relayout-changes-result:{b[1][0]}->{io[0]}{cause}',
                                   'replacing whitespace runs by other runs of whitespace/comments changed the result',
                                   {'oracle': 'whitespace invariance', 'case': b[0].describe(), 'relaid_text': c.text, 'result': b[1], 'relaid_result': io})
     if cases:
